@@ -631,7 +631,8 @@ def inline_void_helpers(stmt, helpers, depth=0):
         if not isinstance(s, dict):
             return s
         k = s.get("k")
-        if k == "Call" and not s.get("op") and s.get("obj") is None and s.get("fn") in helpers and depth < 3:
+        if k == "Call" and not s.get("op") and (s.get("obj") is None or (strip_casts(s["obj"]) or {}).get("k") == "This") and \
+                s.get("fn") in helpers and depth < 3:
             callee = helpers[s["fn"]]
             if (callee.get("ret") or "void") == "void" and len(callee["params"]) == len(s["a"]) and \
                     all(simple(a) for a in s["a"]) and \
